@@ -53,7 +53,7 @@ BUDGET_S = {'quick': 120, 'thorough': 1500}
 
 def bounds(tier):
     return {'integrands': len(INTEGRANDS), 'bounds': len(BOUNDS), 'rule_instances': 'Simplify FullSimplify Linearity ExpandPolynomial DefiniteIntegralIdentity; %d substitutions; %d inverse substitutions; '
-            '%d by-parts pairs; %d split points; %d rewrites; 4 compound contexts; 2-step chains' % (len(SUBSTS), len(INV_SUBSTS), len(PARTS), len(SPLITS), len(REWRITES)),
+            '%d by-parts pairs; %d split points; %d rewrites; 4 compound contexts; 2-step chains; ExpandPolynomial on 4 bases ^2..9; derivatives of 11 integrals with variable limits; 72 roots of monomials with constant factors' % (len(SUBSTS), len(INV_SUBSTS), len(PARTS), len(SPLITS), len(REWRITES)),
             'normalize_deriv_bounds_exprs': 'grammar depth 3 over x a constants + - * / ^k sqrt abs: %d seeded' % (300 if tier == 'quick' else 6000),
             'parameters': 'symbolic reals (a > 0, b > a)', 'z3_timeout_ms': 6000}
 
@@ -324,6 +324,15 @@ REWRITES = [('(x+1)^2', 'x^2+2*x+1'), ('(x+1)^2', 'x^2+1'), ('x*(x+a)', 'x^2+a*x
             ('sqrt(x)', 'x^(1/2)'), ('x*sqrt(x)', 'x^(3/2)'), ('x*sqrt(x)', 'x^2'), ('1/x^2', 'x^(-2)'), ('(x-a)^3', 'x^3-3*a*x^2+3*a^2*x-a^3'), ('(x-a)^3', 'x^3-a^3')]
 
 
+# integrals whose limits / integrand depend on the differentiation variable (Leibniz rule), for part D
+DERIV_EXTRA = ['INT t:[x,1]. t^2', 'INT t:[0,x]. t^2', 'INT t:[x,x^2]. t*a', 'INT t:[x^2,3]. t + x', 'INT t:[0,1]. t*x^2', 'INT t:[-x,x]. t^2*x', 'x * (INT t:[x,2]. t)',
+               'INT t:[a*x,1]. t^3', 'INT t:[1,x+a]. (t+x)^2', '(INT t:[x,1]. t) * (INT t:[0,x]. t^2)', 'INT t:[2*x,3*x]. 1']
+# roots / fractional powers of monomials with positive and negative constant factors (normalisation pulls constants out of roots)
+ROOTS = [t % c for c in ('-4', '4', '-9', '-2', '2', '-1', '1/4', '-1/9', '-8') for t in ('sqrt(%s*x)', '(%s*x)^(1/2)', '(%s*x)^(3/2)', 'sqrt(%s*x*a)', 'sqrt(%s*x^2)', '(%s*x)^(1/3)', '1/sqrt(%s*x)', 'x*sqrt(%s*x)')]
+# powers for ExpandPolynomial (square-and-multiply style slips show at exponents >= 5)
+EXPAND = ['(x+1)^%d', '(x-a)^%d', '(2*x+a)^%d * (x+1)', '(x^2+1)^%d']
+
+
 def simple_rules():
     R = _S['rules']
     return [('Simplify', R.Simplify()), ('FullSimplify', R.FullSimplify()), ('Linearity', R.Linearity()), ('ExpandPolynomial', R.ExpandPolynomial()),
@@ -491,6 +500,22 @@ def run_rules(u, out):
                 continue
             judge_step(label, e0, res, out, rec)
             roundtrip(res, out, rec)
+    # ExpandPolynomial on powers 2..9
+    lo, hi = BOUNDS[bi]
+    for ti, tpl in enumerate(EXPAND):
+        for n in range(2, 10 if ti < 2 else 7):
+            src = 'INT x:[%s,%s]. %s' % (lo, hi, tpl % n)
+            e0 = P(src)
+            label = 'ExpandPolynomial[^%d]' % n
+            rec = {'part': 'rules', 'bounds': bi, 'expand': [ti, n], 'rule': label}
+            out['evals'] += 1
+            st, res = apply_rule(R.ExpandPolynomial(), e0, ctx)
+            if st != 'ok':
+                out['stats'][st] = out['stats'].get(st, 0) + 1
+                continue
+            if twin:
+                continue
+            judge_step(label, e0, res, out, rec)
     # rules at a location inside a compound expression
     lo, hi = BOUNDS[bi]
     for ci, (src, loc) in enumerate([('3 + 2 * (INT x:[%s,%s]. x*(x+a))' % (lo, hi), '1.1'), ('(INT x:[%s,%s]. x^2) * (INT x:[%s,%s]. a*x+1)' % (lo, hi, lo, hi), '1'),
@@ -556,6 +581,11 @@ def my_deriv(e, var):
             return E.Op('/', E.Op('-', E.Op('*', da, b), E.Op('*', a, db)), E.Op('^', b, C(2)))
         if e.op == '^' and b.is_const():
             return E.Op('*', E.Op('*', b, E.Op('^', a, C(Fraction(b.val) - 1))), da)
+    if e.is_integral():
+        # Leibniz rule: f(u) u' - f(l) l' + INT d/dx f
+        fu, fl = e.body.subst(e.var, e.upper), e.body.subst(e.var, e.lower)
+        return E.Op('+', E.Op('-', E.Op('*', fu, my_deriv(e.upper, var)), E.Op('*', fl, my_deriv(e.lower, var))),
+                    E.Integral(e.var, e.lower, e.upper, my_deriv(e.body, var)))
     if e.is_fun() and e.func_name == 'sqrt':
         return E.Op('/', my_deriv(e.args[0], var), E.Op('*', C(2), e))
     if e.is_fun() and e.func_name == 'abs':
@@ -598,8 +628,9 @@ def run_exprs(u, out):
     rnd = random.Random('c19e-%s-%s' % (seed, lo))
     twin = os.environ.get('VERIF_TWIN')
     from vlib.symx import call_with_budget, NonTermination
-    for k in range(n):
-        e = gen_expr(rnd, 3)
+    fixed = [_S['P'](t) for t in DERIV_EXTRA + ROOTS] if lo == 0 else []
+    for k in range(n + len(fixed)):
+        e = fixed[k] if k < len(fixed) else gen_expr(rnd, 3)
         rec = {'part': 'exprs', 'seed': seed, 'lo': lo, 'k': k}
         roundtrip(e, out, rec)
         # N: normalisation
